@@ -2,7 +2,7 @@
 UNITS = [dict(
     name='string', harness='harness/c06_string.cpp', sources=['repo:src/String.cpp', 'repo:src/Memory.cpp'],
     defines={'quick': {'VF_K': 1, 'VF_L': 2, 'VF_KS': 2}, 'thorough': {'VF_K': 2, 'VF_L': 2, 'VF_KS': 3}},
-    entries=['history', 'sharing', 'queries', 'tokens', 'format', 'misc'],
+    entries=['history', 'sharing', 'queries', 'tokens', 'format', 'misc', 'embedded_nul'],
     opts={'all': {'unwind': 64}},
     split={'quick': 12, 'thorough': 16},
     budget={'quick': 280, 'thorough': 2600},
